@@ -2,6 +2,7 @@ package rules
 
 import (
 	"fmt"
+	"go/ast"
 	"go/token"
 	"sort"
 	"strings"
@@ -293,26 +294,7 @@ func c19(c *Ctx) {
 		}
 		if lv := c.need("R-C19.8", be, "(*Storage).loadValue"); lv != nil {
 			resP := ssa.Value(lv.Params[len(lv.Params)-1])
-			nW, bad := 0, ""
-			for _, ci := range core.AllCalls(lv) {
-				uses := false
-				for _, a := range ci.Common().Args {
-					if core.Strip(a) == resP {
-						uses = true
-					}
-				}
-				if !uses {
-					continue
-				}
-				cn := core.CalleeName(ci.Common())
-				switch cn {
-				case "google.golang.org/protobuf/proto.Unmarshal":
-					nW++ // Unmarshal resets the destination first
-				case "google.golang.org/protobuf/proto.Reset":
-				default:
-					bad = shortName(cn)
-				}
-			}
+			nW, bad := destWrites(lv, resP, 0)
 			r.Check(nW >= 1 && bad == "", "R-C19.8", core.FuncName(lv)+" replaces the destination", p.Pos(lv.Pos()), "result is written only by proto.Unmarshal (which resets it)", "the destination message is written by "+bad+" (or never by proto.Unmarshal): fields of a previously populated message survive the load")
 		}
 	}
@@ -484,7 +466,14 @@ func c19Key(c *Ctx, be string, helper *ssa.Function) {
 			// a package-local helper that receives the entry path and performs the file operation
 			if cal := ci.Common().StaticCallee(); cal != nil && cal.Pkg == helper.Pkg && cal.Signature.Recv() == nil && fileOpOnParam(cal) >= 0 {
 				keys = append(keys, ci.Common().Args[fileOpOnParam(cal)])
-				keyOps = append(keyOps, keyOp{ci, true})
+				readsOnly := true
+				for _, hc := range core.AllCalls(cal) {
+					switch core.CalleeName(hc.Common()) {
+					case "os.WriteFile", "os.Remove", "os.OpenFile", "os.Create", "os.RemoveAll", "os.Rename":
+						readsOnly = false
+					}
+				}
+				keyOps = append(keyOps, keyOp{ci, !readsOnly})
 			}
 		}
 	}
@@ -652,4 +641,39 @@ func truncatingWrite(p *core.Prog, fn *ssa.Function, depth int) (bool, string) {
 		}
 	}
 	return false, ""
+}
+
+// destWrites classifies every call of fn that receives dest: proto.Unmarshal (counted) and proto.Reset are
+// the accepted writers; a package-local unexported helper that receives dest is followed (depth 3); any
+// other receiver is returned as the offending callee.
+func destWrites(fn *ssa.Function, dest ssa.Value, depth int) (nW int, bad string) {
+	for _, ci := range core.AllCalls(fn) {
+		at := -1
+		for i, a := range ci.Common().Args {
+			if core.Strip(a) == dest {
+				at = i
+			}
+		}
+		if at < 0 {
+			continue
+		}
+		cn := core.CalleeName(ci.Common())
+		switch cn {
+		case "google.golang.org/protobuf/proto.Unmarshal":
+			nW++ // Unmarshal resets the destination first
+		case "google.golang.org/protobuf/proto.Reset":
+		default:
+			cal := ci.Common().StaticCallee()
+			if cal != nil && cal.Pkg == fn.Pkg && len(cal.Blocks) > 0 && depth < 3 && !ast.IsExported(cal.Name()) && at < len(cal.Params) {
+				n, b := destWrites(cal, cal.Params[at], depth+1)
+				nW += n
+				if b != "" {
+					bad = b
+				}
+				continue
+			}
+			bad = shortName(cn)
+		}
+	}
+	return
 }
